@@ -563,7 +563,11 @@ def stream_cross(chk, i, rng):
         if (r == "accepted") != (mask is None or (len(mask) == d and any(mask))) or r == "other":
             chk.fail("cross:douglas", f"Douglas(feature_mask={mask}).fit on {d} features: {r} ({exc})", replay, layer="L3")
         if r != "accepted":
-            check_rejected(chk, "Douglas", est, "cross" if len(mask) != d else None, f"feature_mask={mask}", replay, X)
+            check_rejected(chk, "Douglas", est, "cross", f"feature_mask={mask}", replay, X)
+        t = chk.ask(f"c16.douglas {int(mask is None)} {int(mask is None or len(mask) == d)} {int(mask is None or any(mask))} 1 1 1 1")
+        acc, exp = t.bool(), t.list(t.next)
+        if acc != (r == "accepted") or (not acc and sorted(set(exp)) != fitted_attrs(est)):
+            chk.fail("trace:douglas", f"Douglas(feature_mask={mask}): {r}, attributes {fitted_attrs(est)}; the checks/writes model of fit with _init_params spelled out says accepted={acc}, {sorted(set(exp))}", replay)
         chk.dist["douglas mask " + ("ok" if ok else "wrong length" if len(mask) != d else "selects nothing")] += 1
         chk.count(("douglas", str(mask)))
 
@@ -759,6 +763,11 @@ def one_groups(chk, d, groups, via_fit=False):
     got = [list(map(int, g)) for g in res] if r == "accepted" else None
     if r == "other":
         chk.fail("groups:other-exception", f"check_groups({groups}, {d}) raises {type(res).__name__}: {res}", replay, layer="L3")
+    t = chk.ask(f"c16.groupsgen {d} " + enc_list(groups, lambda g: enc_list(g, enc_entry)))
+    regen = t.opt(lambda: t.list(lambda: t.list(t.next)))
+    got_tok = [[enc_entry(x) for x in g] for g in res] if r == "accepted" else None
+    if regen != got_tok:
+        chk.fail("groups:regenerated-mismatch", f"check_groups({groups}, {d}) = {got_tok if r == 'accepted' else type(res).__name__}, the function regenerated from the source (Gen/ValidationRules.v) gives {regen}", replay)
     if got != model:
         chk.fail("groups:model-mismatch", f"check_groups({groups}, {d}) = {got if r == 'accepted' else type(res).__name__}, model = {model}", replay)
     want = spec_groups(groups, d)
